@@ -105,6 +105,15 @@ def make_units(tier, only):
                 u = {'module': m, 'options': fo, 'L': L, 'K': 1}
                 u.update(dict(max_paths=1500, timeout=25, query_timeout_ms=5000) if tier == 'quick' else dict(max_paths=30000, timeout=400, query_timeout_ms=60000))
                 units.append(u)
+    for m, info in sorted(intro.items()):
+        if only and m not in only:
+            continue
+        if 'format' not in info['functions']:
+            continue
+        for L in common.short_lengths(info, tier, m):
+            u = {'module': m, 'options': {}, 'L': L, 'K': 1, 'prio': 2}
+            u.update(dict(max_paths=300, timeout=8, query_timeout_ms=4000) if tier == 'quick' else dict(max_paths=5000, timeout=60, query_timeout_ms=30000))
+            units.append(u)
     import random
     rnd = random.Random(common.seed() * 104729 + 11)
     for m, info in sorted(intro.items()):
